@@ -33,6 +33,7 @@ int main(void) {
   sdk_flash_log = 1;
   memset(sdk_flash, 0xff, sizeof(sdk_flash));
   supla_esp_cfg_init();
+  supla_esp_devconn_init(); /* as user_init does: a restart requested through the form (rbt=1) stops the connection timers */
   conn.proto.tcp = &tcp;
   conn.type = ESPCONN_TCP;
   int fill = -1;
@@ -60,6 +61,8 @@ int main(void) {
           if (fill >= 0) stackfill(fill);
           supla_esp_recv_callback(&conn, lastseg, (unsigned short)n);
         }
+      } else if (!strcmp(op, "formlog") && ops_ntok == 2) {
+        fw_hook_form_log = atoi(ops_tok[1]);
       } else if (!strcmp(op, "disc")) {
         supla_esp_discon_callback(&conn);
       } else if (!strcmp(op, "show")) {
